@@ -384,6 +384,9 @@ impl<
             let staging_snapshot = self.get_staging_snapshot(key);
             let mut spilled = None;
 
+            #[cfg(feature = "verif")]
+            crate::verif::point("kos:get_entry:after_snapshot");
+
             if let Some(entry) = self.repr.cache.get(key) {
                 return (entry, staging_snapshot, spilled);
             }
@@ -537,6 +540,9 @@ impl<
                 VersionedOperation { op: op.clone(), epoch },
             ));
         }
+
+        #[cfg(feature = "verif")]
+        crate::verif::point("kos:apply_op:after_staging");
 
         // Step 2: Update Cache (Optimization)
         // We DO NOT load from DB if missing. We only update if present.
